@@ -213,6 +213,9 @@ def e1_stored_codec(ctx):
     tlc_mc(ctx, "StoredCodec", "MC_StoredCodec.cfg", workers=4)
     tlc_mc(ctx, "StoredCodec", "MC_StoredCodec_dev_NoFinalFlush.cfg", workers=4, expect_violation="TableShape")
     tlc_mc(ctx, "StoredCodec", "MC_StoredCodec_dev_ReaderOther.cfg", workers=4, expect_violation="MergedReadsBack")
+    if not ctx.quick:
+        tlc_mc(ctx, "StoredCodec", "MC_StoredCodec_dev_EarlyFlush.cfg", workers=4, expect_violation="MergedReadsBack")
+        tlc_mc(ctx, "StoredCodec", "MC_StoredCodec_dev_HoistedBlockStart.cfg", workers=4, expect_violation="MergedReadsBack")
 
 
 def e1_merge_algo(ctx):
